@@ -40,6 +40,8 @@ func runC13(c *Ctx) {
 	c13MustValidate(c)
 	c13SanitizerUse(c)
 	c13UntrustedNames(c)
+	c13ValidateBeforeSkip(c)
+	c13ViewWrapsArgument(c)
 	c13DiskJoin(c)
 	c13ValidatorCovers(c)
 	c13ConstructorValidates(c)
